@@ -305,7 +305,8 @@ func c19Prop(t *testing.T, k *verifkit.Kit) func(c c19Case) error {
 	}
 }
 
-var c19Ifaces = []string{"eth0", "eth1", "lo"}
+// (names that are prefixes of one another, as eth1 / eth10 / eth1.100 are on a real router: a subscription is for exactly one name)
+var c19Ifaces = []string{"eth0", "eth1", "lo", "eth10", "eth1.100", "e"}
 
 func c19Gen(t *rapid.T) c19Case {
 	var c c19Case
